@@ -1583,6 +1583,11 @@ def c14_gen(rng):
     return {'tree': j_node(gen.gen_tree(rng, wf=True, max_nodes=10, strict=maybe(rng, 0.8))), 'model': rng.choice(['default', 'amr'])}
 
 
+def pickle_copy(g):
+    import pickle
+    return pickle.loads(pickle.dumps(copy.deepcopy(g)))
+
+
 def c14_check(case):
     node = py_node(case['tree'])
     m = py_model(case['model'])
@@ -1614,6 +1619,16 @@ def c14_check(case):
             layout.appears_inverted(g0, tr)
     except Exception as e:  # noqa: BLE001
         return f'diagnostic on a marker-less graph raised {type(e).__name__}: {e}'
+    # a copy of the graph (deepcopy / pickle, as a worker process receives it) gives the same answers
+    g_c = pickle_copy(g)
+    try:
+        if layout.node_contexts(g_c) != ctx:
+            return 'node_contexts differs on a deep-copied / pickled graph'
+        for (tr, c, pushed, inv) in w:
+            if tr[0] != tr[2] and layout.appears_inverted(g_c, tr) != inv:
+                return f'appears_inverted{tr!r} differs on a deep-copied / pickled graph'
+    except Exception as e:  # noqa: BLE001
+        return f'diagnostic on a copied graph raised {type(e).__name__}: {e}'
     # the diagnostics describe the decoded graph: calls that only RETURN something (a tree, a text,
     # a new graph, a report) in between must not change what they say
     for name, call in (('reconfigure', lambda: layout.reconfigure(g, model=m, key=m.canonical_order)),
@@ -1921,6 +1936,9 @@ def c20_gen(rng):
                              'attributesFirst': maybe(rng, 0.3)}
     if maybe(rng, 0.25):
         opts['makeVariables'] = rng.choice(gen.FMTS[:5])
+        if maybe(rng, 0.2):
+            # raw format strings with a format spec or conversion on the index (library = command)
+            opts['makeVariables'] = rng.choice(['{prefix}{i:02d}', 'v{i!s}', '{prefix}_{i:x}', '{prefix}{j!s}', 'n{i:03}'])
     opts['indent'] = rng.choice([-1, None, 2])
     opts['compact'] = maybe(rng, 0.3)
     if maybe(rng, 0.12):
